@@ -37,10 +37,36 @@ var checkSpecs = map[string]*checkSpec{
 		}, kcpStateAssumptions...),
 		stubs: commonStubs,
 		bounds: map[string]string{
-			"quick":    "KCP.Input of arbitrary bytes of every length 0..2048 holding at most one complete segment whose len field is a free 32-bit value, both packet types, from 5 receive-side queue shapes; every index/slice/nil/division check on every path is a solver query; per-call growth of pool acquisitions, ack list and held segments asserted <= 1",
+			"quick":    "fecDecoder.decode of arbitrary bytes (lengths 8..13 and 40, type field data or parity, everything else free) from decoders holding 0..d-1 genuine shards at 4 sequence positions: no panic, shard sets/pool buffers/recovered packets bounded, every held group within the discard horizon; KCP.Input of arbitrary bytes of every length 0..2048 holding at most one complete segment whose len field is a free 32-bit value, both packet types, from 5 receive-side queue shapes; every index/slice/nil/division check on every path is a solver query; per-call growth of pool acquisitions, ack list and held segments asserted <= 1",
 			"thorough": "adds datagrams of 0..160 bytes with up to three complete segments (payloads 0..4+) from the full shape product",
 		},
 		outside: "32-bit int; recvmmsg batch path; datagrams with more than 3 segments (each loop iteration starts from a state covered by the one-segment step)",
+	},
+	"C07": {
+		assumptions: []string{
+			"Reed-Solomon arithmetic is abstracted by the MDS contract: parity = uninterpreted function of the data column; ReconstructData returns the encoder's data iff every shard presented provably equals the encoder's shard in the same slot (same length, same bytes incl. padding), otherwise unconstrained bytes; argument checks as documented (klauspost/reedsolomon itself is trusted; native replay uses the real codec)",
+			"time.Now().UnixMilli() is an arbitrary non-decreasing value per call; groups whose parity the sender skipped are handled by the skip harness",
+			"the decoder has tracked the stream (newestShardId is the previous group), see DESIGN.md C07",
+		},
+		stubs: append([]string{"reedsolomon.New/Encode/ReconstructData -> abstract MDS codec (harness/fec_stub.go + ghost code words in gse)"}, commonStubs...),
+		bounds: map[string]string{
+			"quick":    "(d,p) in {(1,1),(2,1),(2,2),(3,2)}; one group through the real encoder at 4 positions (0, last group before the id wrap, straddling 2^31, at 2^31), 3 payload-length vectors (1..3 symbolic bytes), every arrival sequence of d+1 packets drawn from the group with duplicates (all S^(d+1) sequences); two consecutive groups with all parity lost or skipped",
+			"thorough": "adds (1,3),(3,1),(4,2) and arrival sequences of S+1 packets",
+		},
+		outside: "GF(2^8) arithmetic; interleaving with more than the neighbouring groups; payloads longer than 3 bytes (the FEC layer does not interpret the body)",
+	},
+	"C16": {
+		assumptions: []string{
+			"same codec abstraction as C07",
+			"sequence ids in the period-detector windows are s0+k modulo 2^32 with an independent phase (a superset of real streams away from the paws wrap; at the wrap the real stream has a discontinuity for which FindPeriod returns -1)",
+			"what a mismatched decoder reconstructs before convergence is arbitrary bytes whose harmlessness is C05 (KCP.Input on arbitrary bytes)",
+		},
+		stubs: append([]string{"reedsolomon -> abstract MDS codec", "sort.Slice -> insertion sort calling the real less closure symbolically"}, commonStubs...),
+		bounds: map[string]string{
+			"quick":    "stability and detection: one decode step with a fully symbolic sequence id for (d,p) in {(1,1),(2,1),(2,2),(3,2)}; period detector: windows of 3..6 consecutive ids each present 0/1/2 times (all 3^n patterns), both insertion orders, every phase, symbolic start id, senders as above; clean windows of 2S+2 with fresh and wrapped (258-entry) sample ring; adoption+recovery for 4 sender/receiver pairs at positions 0, ~10^6, 2^31 over 4 groups",
+			"thorough": "windows up to 8, ratios up to (4,2)",
+		},
+		outside: "the literal 258+2(d+p) packet count for every d+p <= 255 under arbitrary pre-convergence faults; ratios with d+p > 6",
 	},
 	"C10": {
 		assumptions: kcpStateAssumptions,
